@@ -195,15 +195,18 @@ struct SortEngine : Engine {
 	{
 		std::string key = a + op + b;
 		auto it = dtest_memo.find(key);
-		if (it != dtest_memo.end())
+		if (it != dtest_memo.end()) {
+			st.mix_value(it->second, key);
 			return it->second;
+		}
 		Plan q;
 		q.engine = "sort";
 		q.variant = base.variant;
 		q.argv = {"dtest", a, op, b};
 		RunResult r = run_plan(q);
-		st.add_probes(r);
+		st.add_ref(r);
 		int rc = r.crashed() ? -1 : r.exit_code;
+		st.mix_value(rc, key);
 		if (dtest_memo.size() < 200000)
 			dtest_memo[key] = rc;
 		return rc;
